@@ -95,7 +95,8 @@ fn check(c: &Case, ctx: &Ctx) -> Outcome {
         let orig_bytes = std::fs::read(dir.join("x.skf")).map_err(|e| Outcome::Infra(e.to_string()))?;
         let mut results = Vec::new();
         for reverse in [false, true] {
-            let out = if reverse { "rev.skf" } else { "fwd.skf" };
+            // weed writes to exactly the name it is given: with the usual suffix, without one, or with another
+            let out = [["fwd.skf", "rev.skf"], ["fwd", "rev"], ["panel_fwd.ska", "panel_rev.ska"]][(k / 2 + samples.len() + wrecs.len()) % 3][reverse as usize];
             // in-place variant works on a copy so that both directions start from the original
             let mut args: Vec<&str> = vec!["weed"];
             let target;
